@@ -484,7 +484,16 @@ def m_range(*a):
     return _b.range(*a)
 
 
+def _pair(x):
+    return type(x) is tuple and len(x) == 2 and all(isinstance(c, SInt) or type(c) is int for c in x)
+
+
 def m_max(*a, **k):
+    if not k and len(a) == 2 and _pair(a[0]) and _pair(a[1]) and any(isinstance(c, Proxy) for c in a[0] + a[1]):
+        # lexicographic maximum of two (line, col) pairs, without forking
+        (l1, c1), (l2, c2) = (lift(a[0][0]), lift(a[0][1])), (lift(a[1][0]), lift(a[1][1]))
+        first_less = z3.Or(l1 < l2, z3.And(l1 == l2, c1 < c2))
+        return (SInt(z3.If(first_less, l2, l1)), SInt(z3.If(first_less, c2, c1)))
     if k or len(a) < 2 or not any(isinstance(x, Proxy) for x in a):
         return _b.max(*a, **k)
     r = a[0]
